@@ -161,6 +161,11 @@ def compare(I, a, b, N):
     """are the index vectors a and b equal (as indices into an axis of length N) for every parity of the integers under
     `// 2` that the path's facts allow?  -> (True, None) | (False, description of a case in which they differ) |
     (None, reason)"""
+    if N is None:
+        N = ZERO  # scalars: nothing is taken modulo the axis length
+        no_mod = True
+    else:
+        no_mod = False
     exprs = [x for l, s in a.segs + b.segs for x in (l, s)] + [N]
     fd, syms = _parity_syms(exprs)
     syms = sorted(syms, key=repr)
@@ -189,7 +194,7 @@ def compare(I, a, b, N):
         N2 = _resolve(N, assign, half) if ok else None
         if not ok or N2 is None:
             return None, "an index expression is not an integer-affine form"
-        ca, cb = _canon(ra, N2), _canon(rb, N2)
+        ca, cb = _canon(ra, None if no_mod else N2), _canon(rb, None if no_mod else N2)
         same = len(ca) == len(cb) and all(x[0].eq(y[0]) and x[1].eq(y[1]) for x, y in zip(ca, cb))
         if not same:
             case = ", ".join("%s %s" % (x.name if x.kind == "sym" else repr(alg.atom_expr(x)), "odd" if odd else "even") for x, odd in assign.items()) or "all cases"
@@ -247,3 +252,9 @@ def as_simple(I, e):
         if ok:
             return ce
     return e1
+
+
+def scalar_equal(I, a, b):
+    """a == b for every parity the facts allow -> (True, None) | (False, case) | (None, reason)"""
+    r = compare(I, IVec([(ONE, alg.as_expr(a))]), IVec([(ONE, alg.as_expr(b))]), None)
+    return r
